@@ -18,13 +18,13 @@ type pathAbort struct{ reason string } // inconclusive end of path
 
 // Finding is a property violation candidate found on a path.
 type Finding struct {
-	Kind      string // "panic" | "assert" | "unwind" | "alloc"
-	Site      string // function where it occurred, or assert id
-	Msg       string
-	Model     map[string]uint64
-	Decisions []int
-	Harness   string
-	Sizes     map[string]int // named byte inputs -> length on this path
+	Kind       string // "panic" | "assert" | "unwind" | "alloc"
+	Site       string // function where it occurred, or assert id
+	Msg        string
+	Model      map[string]uint64
+	Decisions  []int
+	Harness    string
+	Sizes      map[string]int // named byte inputs -> length on this path
 	FreshSizes map[string][]int
 }
 
@@ -32,32 +32,36 @@ func (f *Finding) Key() string { return f.Kind + "#" + f.Site }
 
 // Shared is the state shared by all workers exploring one harness.
 type Shared struct {
-	mu        sync.Mutex
-	cond      *sync.Cond
-	work      [][]int
-	active    int
-	Paths     int
-	PathsOK   int // completed normally
-	Infeasible int
-	Aborted   map[string]int // inconclusive paths by reason
-	Findings  map[string]*Finding
-	FindingCount map[string]int
-	Reach     map[string]int
-	Asserts   map[string]int // assert id -> times checked
+	mu            sync.Mutex
+	cond          *sync.Cond
+	work          [][]int
+	active        int
+	Paths         int
+	PathsOK       int // completed normally
+	Infeasible    int
+	Aborted       map[string]int // inconclusive paths by reason
+	Findings      map[string]*Finding
+	FindingCount  map[string]int
+	Reach         map[string]int
+	Asserts       map[string]int // assert id -> times checked
 	AssertUnknown map[string]int
-	Samples   []PathSample
-	MaxPaths  int
-	Deadline  time.Time
-	BudgetHit string
-	Decisions int
-	MaxSamples int
+	Samples       []PathSample
+	MaxPaths      int
+	Deadline      time.Time
+	BudgetHit     string
+	Decisions     int
+	MaxSamples    int
 }
 
 type PathSample struct {
-	Decisions []int             `json:"decisions"`
-	Reached   []string          `json:"reached"`
-	Model     map[string]uint64 `json:"model,omitempty"`
-	Outcome   string            `json:"outcome"`
+	Decisions  []int             `json:"decisions"`
+	Reached    []string          `json:"reached"`
+	Model      map[string]uint64 `json:"-"`
+	Outcome    string            `json:"outcome"`
+	Sizes      map[string]int    `json:"-"`
+	FreshSizes map[string][]int  `json:"-"`
+	Short      map[string]uint64 `json:"model,omitempty"`
+	Full       interface{}       `json:"full_model,omitempty"`
 }
 
 func NewShared(maxPaths int, deadline time.Time) *Shared {
@@ -124,21 +128,21 @@ type Explorer struct {
 	Sh      *Shared
 	Harness string
 
-	prefix []int
-	pos    int
-	pc     []*smt.Term
-	taken  []int
-	freshN int
-	reached []string
-	namedVars map[string]bool
-	steps   int
-	MaxSteps int
-	hashApps []hashApp
-	opaque   []opaqueEntry
-	logs     []string
-	sinks    []sinkRec
-	secrets  []*smt.Term
-	sched    *scheduler
+	prefix     []int
+	pos        int
+	pc         []*smt.Term
+	taken      []int
+	freshN     int
+	reached    []string
+	namedVars  map[string]bool
+	steps      int
+	MaxSteps   int
+	hashApps   []hashApp
+	opaque     []opaqueEntry
+	logs       []string
+	sinks      []sinkRec
+	secrets    []*smt.Term
+	sched      *scheduler
 	AllocLimit int64
 	ForkLimit  int
 	freshCat   map[string]int
@@ -436,19 +440,28 @@ func (e *Explorer) RunPath(prefix []int, run func()) {
 			ps.Decisions = ps.Decisions[:40]
 		}
 		if r, m := e.model(nil); r == smt.Sat {
-			if len(m) > 48 {
+			ps.Model = m
+			ps.Short = m
+			if len(m) > 32 {
 				mm := map[string]uint64{}
 				keys := make([]string, 0, len(m))
 				for k := range m {
 					keys = append(keys, k)
 				}
 				sort.Strings(keys)
-				for _, k := range keys[:48] {
+				for _, k := range keys[:32] {
 					mm[k] = m[k]
 				}
-				m = mm
+				ps.Short = mm
 			}
-			ps.Model = m
+			ps.Sizes = map[string]int{}
+			for k, v := range e.inSizes {
+				ps.Sizes[k] = v
+			}
+			ps.FreshSizes = map[string][]int{}
+			for k, v := range e.freshSizes {
+				ps.FreshSizes[k] = append([]int{}, v...)
+			}
 		}
 		e.Sh.mu.Lock()
 		if len(e.Sh.Samples) < e.Sh.MaxSamples {
